@@ -37,10 +37,10 @@ type event struct {
 }
 
 type rowsScript struct {
-	Cols    []string
-	Rows    [][]driver.Value
-	FailAt  int   // Next call index (0-based) at which to fail; -1 = never
-	FailErr error // error returned at FailAt
+	Cols     []string
+	Rows     [][]driver.Value
+	FailAt   int   // Next call index (0-based) at which to fail; -1 = never
+	FailErr  error // error returned at FailAt
 	CloseErr error
 	// More: the driver reports a second (empty) result set after this one
 	// (driver.RowsNextResultSet), as a stored procedure or a multi-statement
@@ -194,7 +194,9 @@ func (c *fakeConn) Close() error {
 	return nil
 }
 
-func (c *fakeConn) Begin() (driver.Tx, error) { return c.BeginTx(context.Background(), driver.TxOptions{}) }
+func (c *fakeConn) Begin() (driver.Tx, error) {
+	return c.BeginTx(context.Background(), driver.TxOptions{})
+}
 
 func (c *fakeConn) BeginTx(ctx context.Context, opts driver.TxOptions) (driver.Tx, error) {
 	if err := c.db.step(event{Kind: "begin", Conn: c.id}, ctx); err != nil {
@@ -210,8 +212,10 @@ func (c *fakeConn) CheckNamedValue(nv *driver.NamedValue) error { return nil }
 
 type fakeTx struct{ conn *fakeConn }
 
-func (t *fakeTx) Commit() error   { return t.conn.db.step(event{Kind: "commit", Conn: t.conn.id}, nil) }
-func (t *fakeTx) Rollback() error { return t.conn.db.step(event{Kind: "rollback", Conn: t.conn.id}, nil) }
+func (t *fakeTx) Commit() error { return t.conn.db.step(event{Kind: "commit", Conn: t.conn.id}, nil) }
+func (t *fakeTx) Rollback() error {
+	return t.conn.db.step(event{Kind: "rollback", Conn: t.conn.id}, nil)
+}
 
 type fakeStmt struct {
 	conn   *fakeConn
